@@ -242,6 +242,14 @@ impl Prop for C01 {
     fn profiles(&self, tier: Tier) -> Vec<(Profile, usize)> {
         vec![(p_rewind(), tier.pick(320, 4000)), (p_ctx(), tier.pick(80, 1000))]
     }
+    fn adjust_spec(&self, mut spec: Spec, r: &mut TestRunner) -> Spec {
+        // several rules matching the same lexemes (with different contexts): ties and fall-through
+        let t = sample(&gen::tape_strategy(12), r);
+        if t.first().map(|x| x % 3 == 0).unwrap_or(false) {
+            gen::duplicate_rules(&mut spec, t.get(1..).unwrap_or(&[]));
+        }
+        spec
+    }
     fn cases(&self, ctx: &SpecCtx, _c: &mut Compiled, r: &mut TestRunner, tier: Tier) -> Vec<Case> {
         cases_from(
             ctx,
@@ -401,7 +409,32 @@ impl Prop for C04 {
         big.re.w_set = 8;
         big.re.w_any = 3;
         big.re.chars = ABCDE.to_vec();
-        vec![(p_ctx(), tier.pick(260, 3000)), (big, tier.pick(100, 1200))]
+        let mut multi = p_ctx();
+        multi.name = "ctx-sets";
+        multi.sets = (2, 3);
+        multi.rules = (1, 3);
+        multi.unnamed_pct = 0;
+        multi.kinds.swret = 3;
+        multi.kinds.sw = 2;
+        multi.ctx_pct = 75;
+        vec![(p_ctx(), tier.pick(220, 3000)), (big, tier.pick(80, 1200)), (multi, tier.pick(120, 1500))]
+    }
+    fn adjust_spec(&self, mut spec: Spec, r: &mut TestRunner) -> Spec {
+        let t = sample(&gen::tape_strategy(60), r);
+        let sel = t.first().copied().unwrap_or(0);
+        if sel % 2 == 0 {
+            // the same lexeme under different contexts at different priorities
+            gen::duplicate_rules(&mut spec, t.get(1..).unwrap_or(&[]));
+        }
+        if sel % 3 == 0 {
+            // contexts (and rules) written with top-level and rule-set-local variables; the same
+            // local name is bound differently in different rule sets
+            gen::factor_lets(&mut spec, t.get(1..).unwrap_or(&[]), 35);
+        } else if sel % 3 == 1 && spec.named() {
+            // every context is a rule-set-local variable c0, c1, …
+            gen::local_ctx_lets(&mut spec);
+        }
+        spec
     }
     fn cases(&self, ctx: &SpecCtx, _c: &mut Compiled, r: &mut TestRunner, tier: Tier) -> Vec<Case> {
         cases_from(ctx, r, &std_plan(tier, false))
